@@ -112,4 +112,29 @@ def run(ctx):
             cvs2.append(v)
         campaign.judge_cam(ctx, camp, cvs2, ["C06."])
         ctx.cov["distinct_nontrivial"] = nt
+    huge_length_fields(ctx)
     ctx.assumptions.append("a run producing more than 4000 boundary events is taken as non-terminating")
+
+def huge_length_fields(ctx):
+    """length, count, offset and padding parameters taken from a variable-length integer of thousands of digits (beyond what Python converts
+    to decimal): judged by the root clause of the pushdown machine alone (spec/CAM.tla), the values are far outside Sem's integers"""
+    n = A.Renamed("n", A.VarInt)
+    z = A.Renamed("n", A.ZigZag)
+    N = A.T("n")
+    progs = [A.Prefixed(A.VarInt, A.GreedyBytes), A.Struct(n, A.Renamed("d", A.Bytes(N))), A.Struct(n, A.Renamed("p", A.Pointer(N, A.Alias("Byte")))),
+             A.Struct(n, A.Renamed("a", A.Array(N, A.Alias("Byte")))), A.Struct(z, A.Renamed("a", A.Array(N, A.Alias("Byte")))),
+             A.Struct(n, A.Renamed("d", A.Padded(N, A.Alias("Byte")))), A.Struct(n, A.Renamed("d", A.FixedSized(N, A.GreedyBytes))),
+             A.Struct(n, A.Seek(N), A.Renamed("b", A.Alias("Byte"))), A.Struct(n, A.Renamed("d", A.BytesInteger(N))), A.PrefixedArray(A.VarInt, A.Alias("Byte")),
+             A.Struct(n, A.Renamed("d", A.PaddedString(N, "utf8"))), A.Struct(z, A.Renamed("d", A.Bytes(N))), A.Struct(n, A.Renamed("d", A.Aligned(N, A.Alias("Byte")))),
+             A.PascalString(A.VarInt, "utf8"), A.Bitwise(A.Struct(A.Renamed("n", A.Bytewise(A.VarInt)), A.Renamed("d", A.BitsInteger(N)))),
+             A.Struct(n, A.Renamed("d", A.N("Lazy", sub=A.Bytes(N))))]
+    with campaign.Campaign(ctx, "c06h", strict=True, shard_size=400) as camp:
+        for prog in progs:
+            con = campaign.realizable(prog)
+            if con is None:
+                continue
+            for size in (700, 2100, 2101):
+                for last in (b"\x01", b"\x7f"):
+                    camp.parse(prog, con, b"\xff" * size + last + b"\x00\x01\x02", 0, {}, tag="huge")
+        cvs = campaign.validate_cam(camp)
+        campaign.judge_cam(ctx, camp, cvs, ["C06."])
